@@ -315,6 +315,8 @@ func (sd *vfC40Side) reset() {
 	sd.last = map[int][2]string{}
 }
 
+var vfC40ReadCounterMoves atomic.Int64
+
 func (sd *vfC40Side) exec(op *vfC40Op) (res string) {
 	p, _ := vk.Catch(func() { res = sd.exec1(op) })
 	if p != nil {
@@ -333,7 +335,29 @@ func (sd *vfC40Side) exec1(op *vfC40Op) string {
 		d.Admin(op.s, nil)
 		return "ok"
 	case "tran":
-		sd.trans[op.h] = d.Transaction(op.b)
+		t := d.Transaction(op.b)
+		n := t.Num()
+		dup := false
+		for _, t2 := range sd.trans {
+			if t2.Num() == n {
+				dup = true
+			}
+		}
+		sd.trans[op.h] = t
+		if op.b && sd.name == "client-server" {
+			// a long-running server has handed out arbitrarily many read transaction numbers: move the (process
+			// wide) read counter up to just below this update transaction's number, so that the numbers of
+			// transactions open in one session are close together (never moved backwards: numbers stay unique)
+			target := int32(n) - int32(2*(n/2%3)) - 1
+			if prev := db19.VerifSetNextReadTran(target); prev > target {
+				db19.VerifSetNextReadTran(prev)
+			} else {
+				vfC40ReadCounterMoves.Add(1)
+			}
+		}
+		if dup {
+			return fmt.Sprintf("ERR transaction number %d is already used by an open transaction of this session", n)
+		}
 		return "ok"
 	case "complete":
 		t := sd.trans[op.h]
